@@ -150,3 +150,205 @@ Proof.
              try (apply update_nth_Forall; auto using E_step, E_fail, E_send, E_close).
            congruence.
 Qed.
+
+(* ------------------------------------------------------------------ ranks *)
+
+Definition hit_stop (e : tev) : bool := match e with TStop => true | _ => false end.
+Definition hit_acc (e : tev) : bool := match e with TAcc => true | _ => false end.
+Definition hit_conn (i : nat) (e : tev) : bool := match e with TConn j => Nat.eqb i j | _ => false end.
+
+Definition tstop_rank (s : tstate) : nat := match t_stop s with TIdle => 3 | TQuit => 2 | TLis => 1 | _ => 0 end.
+Definition acc_rank (s : tstate) : nat := match t_acc s with ASpawn => 2 | ASelect | AAccept => 1 | AExited => 0 end.
+Definition conn_rank (c : conn) : nat :=
+  match c_pc c with CStart | CHandle => 2 | CSelect | CRead | CWrite => 1 | CExited => 0 end.
+Definition dconn : conn := Build_conn CExited true true 0.
+Definition crank (i : nat) (s : tstate) : nat := conn_rank (nth i (t_conns s) dconn).
+Definition twait_rank (s : tstate) : nat := match t_stop s with TDone => 0 | _ => 1 end.
+
+Lemma tstop_rank_step s e :
+  tstop_rank (tstep s e) <= tstop_rank s /\
+  (hit_stop e = true -> 0 < tstop_rank s -> tstop_rank (tstep s e) < tstop_rank s).
+Proof.
+  destruct (tev_eq_dec_stop e) as [->|Hne].
+  - destruct s as [acc q lc bl conns st]. unfold tstop_rank. destruct st; cbn; try (split; intros; lia).
+    destruct acc; cbn; try (split; intros; lia). destruct (all_exited conns); cbn; split; intros; lia.
+  - unfold tstop_rank. rewrite (proj1 (tstep_stop_other s e Hne)). split; [lia|].
+    destruct e; cbn; congruence.
+Qed.
+
+Definition tinv2 (s : tstate) : Prop := twf s /\ tstop_rank s = 0.
+
+Lemma tinv2_flags s : tinv2 s -> t_quit s = true /\ t_lclosed s = true /\ Forall cJ (t_conns s) /\ t_stop s <> TLis.
+Proof.
+  intros [[_ Hst] Hr]. unfold tstop_rank in Hr. destruct (t_stop s); try lia; repeat split; try tauto; congruence.
+Qed.
+
+Lemma tinv2_step s e : tinv2 s -> tinv2 (tstep s e).
+Proof.
+  intros [Hwf Hr]. split; [apply twf_step; auto|]. pose proof (proj1 (tstop_rank_step s e)). lia.
+Qed.
+
+Lemma acc_rank_step s e : t_quit s = true -> t_lclosed s = true ->
+  acc_rank (tstep s e) <= acc_rank s /\
+  (hit_acc e = true -> 0 < acc_rank s -> acc_rank (tstep s e) < acc_rank s).
+Proof.
+  destruct s as [acc q lc bl conns st]; cbn. intros -> ->. unfold acc_rank.
+  destruct e, acc, st; try destruct bl; cbn; try destruct (all_exited conns); cbn;
+    split; intros; try lia; try discriminate.
+Qed.
+
+Definition tinv3 (s : tstate) : Prop := twf s /\ tstop_rank s = 0 /\ t_acc s = AExited.
+
+Lemma tstep_acc_exited s e : t_acc s = AExited -> t_acc (tstep s e) = AExited.
+Proof.
+  destruct (tev_eq_dec_stop e) as [->|Hne].
+  - destruct s as [acc q lc bl conns st]; cbn. intros ->. destruct st; cbn; auto. destruct (all_exited conns); auto.
+  - apply (proj2 (tstep_stop_other s e Hne)).
+Qed.
+
+Lemma tinv3_step s e : tinv3 s -> tinv3 (tstep s e).
+Proof.
+  intros (Hwf & Hr & Ha). destruct (tinv2_step s e (conj Hwf Hr)) as [H1 H2].
+  split; [exact H1|]. split; [exact H2|]. apply tstep_acc_exited; exact Ha.
+Qed.
+
+Lemma no_spawn_after_exit s e : t_acc s = AExited -> t_conns (tstep s e) <> t_conns s ++ [new_c].
+Proof.
+  destruct s as [acc q lc bl conns st]; cbn. intros ->.
+  assert (Hlen : forall l : list conn, length l = length conns -> l <> conns ++ [new_c]).
+  { intros l Hl X. apply (f_equal (@length conn)) in X. rewrite app_length in X. cbn in X. lia. }
+  destruct e; cbn; try (apply Hlen; rewrite ?update_nth_length; reflexivity).
+  - destruct st; cbn; try (apply Hlen; rewrite ?map_length; reflexivity).
+    destruct (all_exited conns); apply Hlen; reflexivity.
+  - destruct lc; apply Hlen; reflexivity.
+Qed.
+
+Lemma tinv3_change s e : tinv3 s ->
+  conns_change true (t_conns s) (t_conns (tstep s e)) /\ t_conns (tstep s e) <> t_conns s ++ [new_c].
+Proof.
+  intros (Hwf & Hr & Ha). destruct (tinv2_flags s (conj Hwf Hr)) as (Hq & _ & _ & Hst).
+  split; [|apply no_spawn_after_exit; auto]. rewrite <- Hq. apply tstep_conns. left. exact Hst.
+Qed.
+
+Lemma tinv3_length s e : tinv3 s -> length (t_conns (tstep s e)) = length (t_conns s).
+Proof. intros H. destruct (tinv3_change s e H) as [Hch Hns]. eapply change_length_noacc; eauto. Qed.
+
+Lemma tinv3_run_length l : forall s, tinv3 s -> length (t_conns (trun s l)) = length (t_conns s).
+Proof.
+  unfold trun. induction l as [|e l IH]; intros s H; cbn; auto.
+  rewrite IH by (apply tinv3_step; auto). apply tinv3_length; auto.
+Qed.
+
+Lemma conn_rank_step : forall c, cJ c ->
+  conn_rank (conn_step true c) <= conn_rank c /\ (0 < conn_rank c -> conn_rank (conn_step true c) < conn_rank c).
+Proof.
+  intros [pc st cl av]; unfold cJ, conn_rank, conn_step; cbn.
+  destruct pc, cl; try destruct av; cbn; intuition (try congruence; try lia).
+Qed.
+Lemma conn_rank_fail : forall c, conn_rank (conn_fail c) <= conn_rank c.
+Proof. intros [pc st cl av]; unfold conn_rank, conn_fail; cbn. destruct pc; cbn; lia. Qed.
+
+Lemma nth_update_nth_any (f : conn -> conn) i j cs :
+  nth i (update_nth j f cs) dconn = if Nat.eqb i j && Nat.ltb i (length cs) then f (nth i cs dconn) else nth i cs dconn.
+Proof.
+  destruct (Nat.eqb_spec i j) as [->|Hne]; cbn [andb].
+  - destruct (Nat.ltb_spec j (length cs)).
+    + apply nth_update_nth_eq; auto.
+    + rewrite !nth_overflow; auto. rewrite update_nth_length. auto.
+  - apply nth_update_nth_neq. auto.
+Qed.
+
+Lemma crank_step i s e : tinv3 s ->
+  crank i (tstep s e) <= crank i s /\
+  (hit_conn i e = true -> 0 < crank i s -> crank i (tstep s e) < crank i s).
+Proof.
+  intros Hinv. pose proof Hinv as (Hwf & Hr & Ha).
+  destruct (tinv2_flags s (conj Hwf Hr)) as (Hq & _ & HJ & Hst).
+  destruct (tinv3_change s e Hinv) as [Hch Hns].
+  assert (HJi : cJ (nth i (t_conns s) dconn)).
+  { destruct (Nat.ltb_spec i (length (t_conns s))).
+    - rewrite Forall_forall in HJ. apply HJ. apply nth_In. auto.
+    - rewrite nth_overflow by auto. unfold cJ, dconn; cbn; auto. }
+  assert (Hhit : hit_conn i e = true -> t_conns (tstep s e) = update_nth i (conn_step true) (t_conns s)).
+  { destruct e; cbn; try discriminate. intros E. apply Nat.eqb_eq in E. subst i0.
+    destruct s as [acc q lc bl conns st]; cbn in *. subst q. reflexivity. }
+  unfold crank.
+  split.
+  - inversion Hch as [E0|E0|j E0|j E0|j E0|j E0]; try (rewrite <- E0); try lia; try congruence;
+      rewrite nth_update_nth_any; destruct (Nat.eqb i j && Nat.ltb i (length (t_conns s))); try lia.
+    + apply conn_rank_step; auto.
+    + apply conn_rank_fail.
+    + unfold conn_rank, send_c; cbn. lia.
+    + unfold conn_rank, close_c; cbn. lia.
+  - intros Hh Hpos. rewrite (Hhit Hh). rewrite nth_update_nth_any, Nat.eqb_refl. cbn [andb].
+    destruct (Nat.ltb_spec i (length (t_conns s))).
+    + apply conn_rank_step; auto.
+    + rewrite nth_overflow in Hpos by auto. cbn in Hpos. lia.
+Qed.
+
+Definition tinv4 (s : tstate) : Prop := tinv3 s /\ Forall cE (t_conns s).
+
+Lemma tinv4_step s e : tinv4 s -> tinv4 (tstep s e).
+Proof.
+  intros [H3 HE]. split; [apply tinv3_step; auto|].
+  destruct (tinv3_change s e H3) as [Hch Hns].
+  inversion Hch as [E0|E0|j E0|j E0|j E0|j E0]; try (rewrite <- E0); auto; try congruence;
+    apply update_nth_Forall; auto using E_step, E_fail, E_send, E_close.
+Qed.
+
+Lemma twait_rank_step s e : tinv4 s ->
+  twait_rank (tstep s e) <= twait_rank s /\
+  (hit_stop e = true -> 0 < twait_rank s -> twait_rank (tstep s e) < twait_rank s).
+Proof.
+  intros [(Hwf & Hr & Ha) HE]. apply all_exited_Forall in HE.
+  destruct (tev_eq_dec_stop e) as [->|Hne].
+  - destruct s as [acc q lc bl conns st]. cbn [t_acc t_conns t_stop] in *. subst acc.
+    unfold twait_rank, tstop_rank in *. cbn [t_stop] in *.
+    destruct st; try lia; cbn [tstep t_stop].
+    + rewrite HE. cbn [t_stop]. split; intros; lia.
+    + split; intros; lia.
+  - unfold twait_rank. rewrite (proj1 (tstep_stop_other s e Hne)). split; [lia|]. destruct e; cbn; congruence.
+Qed.
+
+Lemma shutdown_tcp : forall s s1 s2 s3 s4, twf s ->
+  3 <= tcount_stop s1 -> 2 <= tcount_acc s2 ->
+  (forall i, i < length (t_conns (trun s (s1 ++ s2))) -> 2 <= tcount_conn i s3) ->
+  1 <= tcount_stop s4 ->
+  tcp_stopped (trun s (s1 ++ s2 ++ s3 ++ s4)).
+Proof.
+  intros s s1 s2 s3 s4 Hwf H1 H2 H3 H4. unfold trun in *. rewrite !fold_left_app. rewrite fold_left_app in H3.
+  (* phase 1: Stop closes quit, the listener, and walks the map *)
+  destruct (rank_run _ _ tstep twf tstop_rank hit_stop twf_step
+              (fun s e _ => proj1 (tstop_rank_step s e)) (fun s e _ => proj2 (tstop_rank_step s e)) s1 s Hwf) as [Ha Hb].
+  { change (length (filter hit_stop s1)) with (tcount_stop s1). unfold tstop_rank. destruct (t_stop s); lia. }
+  set (sa := fold_left tstep s1 s) in *.
+  (* phase 2: the accept loop returns *)
+  destruct (rank_run _ _ tstep tinv2 acc_rank hit_acc tinv2_step
+              (fun s e H => proj1 (acc_rank_step s e (proj1 (tinv2_flags s H)) (proj1 (proj2 (tinv2_flags s H)))))
+              (fun s e H => proj2 (acc_rank_step s e (proj1 (tinv2_flags s H)) (proj1 (proj2 (tinv2_flags s H)))))
+              s2 sa (conj Ha Hb)) as [[Hc Hd] He].
+  { change (length (filter hit_acc s2)) with (tcount_acc s2). unfold acc_rank. destruct (t_acc sa); lia. }
+  set (sb := fold_left tstep s2 sa) in *.
+  assert (H3b : tinv3 sb).
+  { split; [exact Hc|]. split; [exact Hd|]. unfold acc_rank in He. destruct (t_acc sb); try lia. reflexivity. }
+  (* phase 3: every connection goroutine returns *)
+  set (sc := fold_left tstep s3 sb) in *.
+  assert (H3c : tinv3 sc) by (apply (inv_run _ _ tstep tinv3 tinv3_step); auto).
+  assert (Hlen : length (t_conns sc) = length (t_conns sb)) by (apply (tinv3_run_length s3 sb H3b)).
+  assert (HEc : Forall cE (t_conns sc)).
+  { apply Forall_forall. intros c Hin. apply (In_nth _ _ dconn) in Hin. destruct Hin as (i & Hi & <-).
+    destruct (rank_run _ _ tstep tinv3 (crank i) (hit_conn i) tinv3_step
+                (fun s e H => proj1 (crank_step i s e H)) (fun s e H => proj2 (crank_step i s e H)) s3 sb H3b) as [_ Hz].
+    { rewrite Hlen in Hi. specialize (H3 i Hi). change (length (filter (hit_conn i) s3)) with (tcount_conn i s3).
+      unfold crank, conn_rank. destruct (c_pc _); lia. }
+    fold sc in Hz. unfold crank, conn_rank in Hz. unfold cE. destruct (c_pc (nth i (t_conns sc) dconn)); try lia. reflexivity. }
+  (* phase 4: wg.Wait returns *)
+  destruct (rank_run _ _ tstep tinv4 twait_rank hit_stop tinv4_step
+              (fun s e H => proj1 (twait_rank_step s e H)) (fun s e H => proj2 (twait_rank_step s e H))
+              s4 sc (conj H3c HEc)) as [[(Hf & Hg & Hh) Hi] Hj].
+  { change (length (filter hit_stop s4)) with (tcount_stop s4). unfold twait_rank. destruct (t_stop sc); lia. }
+  set (sd := fold_left tstep s4 sc) in *.
+  unfold tcp_stopped. repeat split; auto.
+  - apply all_exited_Forall. auto.
+  - unfold twait_rank in Hj. destruct (t_stop sd); try lia. reflexivity.
+Qed.
